@@ -6,9 +6,9 @@
    computed case number) does not matter.  The command line's table comes from applications/src/multitensor.cpp (T3).
    Finite: case analysis on the 16 combinations + vm_compute.  The extension itself cannot be built here (no Cython): no runtime tie.
    Only statements; every proof is `exact <lemma>` (proofs live in the files imported below). *)
-From Coq Require Import List String Bool Arith.
+From Coq Require Import List String Bool Arith ZArith NArith Floats.
 Import ListNotations.
-From MT Require Import GenCli GenPyx DispatchSpec CliDispatchProofs PyxDispatchProofs.
+From MT Require Import GenCli GenPyx DispatchSpec CliDispatchProofs PyxDispatchProofs Arith CliModel CliMain CliMainProofs.
 Local Open Scope string_scope.
 
 (* for each of the 16 combinations run() makes EXACTLY ONE library call; its graph direction, affinity tensor, affinity initialiser, vertex and *)
@@ -58,4 +58,14 @@ Theorem C19_cli_table : forall directed assort file : bool,
          c_vresize r = directed /\ c_args r = cxx_formal_parameters.
 Proof. exact cli_dispatch. Qed.
 Print Assumptions C19_cli_table.
+
+(* the command line side of "the variant its arguments name": in the front end (CliMain.cli_main, compared with the real binary on every run) each of the three *)
+(* switches that index the selection table is decided by the presence of ITS OWN option alone -- `--assortative` counts whether or not `--undirected` *)
+(* is given, in whatever order; `--w` likewise *)
+Theorem C19_cli_switches_independent : forall (stoi : str -> option Z) (argv : list str) (c : cli_cfg),
+       parse_options stoi argv = Some c ->
+       c_directed c = negb (has argv s_undirected) /\
+       c_assort c = has argv s_assortative /\ str_opt argv s_w [] = Some (c_wfile c).
+Proof. exact parse_options_flags. Qed.
+Print Assumptions C19_cli_switches_independent.
 
